@@ -1182,6 +1182,8 @@ def apply_op(ctx, w: World, op: Dict[str, Any], info, report):
                 list(sp.open_legs)
             return int(np.prod([cshape[l] for l in legs], dtype=int))
         bond = min(side_dim(o_spec), side_dim(i_spec))
+        if op["how"] != "qr" and _stored_is_zero(ttn, newid):
+            bond = 1        # an exactly zero tensor: see _stored_is_zero
         stok = (f"split:{w.nid(op['new'])}:{spec_of(o_spec, {tmp: op['new']})}:{spec_of(i_spec, {tmp: op['new']})}:"
                 f"{w.nid(o_nm)}:{w.nid(i_nm)}:{bond}")
         if op["how"] == "qr":
@@ -1628,6 +1630,19 @@ def spec_str(w: World, parent, children, opens, is_root, rename=None) -> str:
             f"{fmt_list(opens)}/{'r' if is_root else 'n'}")
 
 
+def _stored_is_zero(ttn, rid) -> bool:
+    """An exactly zero tensor has s_max = 0, the cut-off `-inf * 0.0` of the "untruncated" SVD parameters is NaN and the
+    library's keep-the-largest branch leaves ONE (zero) singular value: the new bond has dimension 1, not min(rows, cols)
+    (recorded in notes/C10.md and C11; integer tensors of rank-deficient histories do contract to exactly zero - a false
+    alarm of this stream in the thorough tier, seed 1).  The stored array is read without going through the TensorDict
+    accessor, which would apply the node's pending leg permutation (an `access` the model would not see)."""
+    try:
+        arr = ttn._tensors.data[rid]
+    except Exception:       # noqa: BLE001
+        return False
+    return not np.any(arr)
+
+
 def split_token(w: World, op: Dict[str, Any]) -> str:
     """Protocol token of a split op (computed before the call): specs as passed to the library, new bond
     dimension by the rule of the splitting function (reduced QR / untruncated SVD: min(rows, cols))."""
@@ -1653,6 +1668,8 @@ def split_token(w: World, op: Dict[str, Any]) -> str:
             bond = {"ia": rows, "ib": cols, "qr": min(rows, cols)}[op["repl"]]
         else:
             bond = {"full": rows, "keep": cols}.get(op.get("variant"), min(rows, cols))
+            if how == "svd" and _stored_is_zero(w.ttn, w.rid(x)):
+                bond = 1    # an exactly zero tensor: see _stored_is_zero
     return f"split:{w.nid(x)}:{o}:{i}:{w.nid(op['out_id'])}:{w.nid(op['in_id'])}:{bond}"
 
 
